@@ -14,6 +14,28 @@ OWNER = {}   # id(expression node object) -> Fn that contains it (pieces can com
 STR_TYPES = ("QString", "const QString", "QLatin1String", "QByteArray", "const QByteArray", "QStringView")
 
 
+LIST_TYPES = ("QStringList", "QList<QString>", "QVector<QString>", "std::vector<QString>", "QList<QByteArray>", "QByteArrayList")
+
+
+def _is_list(t):
+    t = (t or "").replace("&", "").replace("const ", "").strip()
+    return t in LIST_TYPES or t.startswith("std::vector<QString,")
+
+
+def const_char(n):
+    """the character of a QChar / QLatin1Char / char expression, if constant"""
+    cs = const_str(n)
+    if cs is not None:
+        return cs
+    cands = [x for x in walk(n) if x.get("k") in ("char", "int") and x.get("cv") is not None]
+    if len(cands) == 1 and not any(x.get("k") in ("ref", "call", "member", "this") for x in walk(n)):
+        try:
+            return chr(int(cands[0]["cv"]))
+        except (ValueError, TypeError):
+            return None
+    return None
+
+
 def _is_str(t):
     t = (t or "").replace("&", "").strip()
     return t in STR_TYPES or t.startswith("QStringBuilder")
@@ -75,6 +97,28 @@ class StrEval:
                 a = a or self.hole(n["args"][0])
                 b = b or self.hole(n["args"][1])
                 return [x + y for x in a for y in b][:MAX_ALT]
+            if short == "join" and n.get("ck") == "member" and len([a for a in n.get("args", []) if a.get("k") != "defaultarg"]) == 1:
+                o = skip_copies(n.get("obj"))
+                lst = env.get(("L", o.get("decl"))) if isinstance(o, dict) and o.get("k") == "ref" else None
+                if lst is None and isinstance(o, dict):
+                    lst = self.list_val(o, env)
+                sep = const_char(n["args"][0])
+                if lst is not None and sep is not None:
+                    out = []
+                    for els in lst:
+                        alt = []
+                        for i, e in enumerate(els):
+                            if i and sep:
+                                alt.append(("c", sep))
+                            alt += list(e)
+                        out.append(alt)
+                    return dedupe(out)
+                return self.hole(n)
+            if callee in ("QDir::filePath", "QDir::absoluteFilePath") and len(n.get("args", [])) == 1:
+                # <directory>/<name>: the directory is a run-time piece, the name is what is being built
+                inner = self.val(n["args"][0], env) or self.hole(n["args"][0])
+                OWNER[id(n.get("obj"))] = self.fn
+                return [[("h", n.get("obj"), False), ("c", "/")] + list(alt) for alt in inner][:MAX_ALT]
             if short in ("fromLatin1", "fromUtf8", "fromLocal8Bit") and n.get("args"):
                 return self.val(n["args"][0], env)
             # helper of the repository returning a string
@@ -95,6 +139,33 @@ class StrEval:
             a, b = self.val(n.get("t"), env) or self.hole(n.get("t")), self.val(n.get("f"), env) or self.hole(n.get("f"))
             return dedupe(a + b)
         return self.hole(n)
+
+    def list_val(self, n, env):
+        """alternatives of a string-list-valued expression: [[element alt, ...], ...] or None"""
+        n = skip_copies(n)
+        if not isinstance(n, dict):
+            return None
+        if n.get("k") == "ref":
+            return env.get(("L", n.get("decl")))
+        if n.get("k") == "construct" and _is_list(n.get("class") or n.get("type")):
+            args = [a for a in n.get("args", []) if a.get("k") != "defaultarg"]
+            if not args:
+                return [[]]
+            if len(args) == 1 and skip_copies(args[0]).get("k") == "initlist":
+                lists = [[]]
+                for e in skip_copies(args[0]).get("els", []):
+                    ev = self.val(e, env) or self.hole(e)
+                    lists = [l + [v] for l in lists for v in ev][:MAX_ALT]
+                return lists
+            if len(args) == 1 and n.get("copy"):
+                return self.list_val(args[0], env)
+        if n.get("k") == "initlist":
+            lists = [[]]
+            for e in n.get("els", []):
+                ev = self.val(e, env) or self.hole(e)
+                lists = [l + [v] for l in lists for v in ev][:MAX_ALT]
+            return lists
+        return None
 
     def sub_eval(self, f, call, env):
         binds = {}
@@ -151,8 +222,19 @@ class StrEval:
                     if _is_str(v.get("type")):
                         env = dict(env)
                         env[v["decl"]] = [[]]
+                    elif _is_list(v.get("type")):
+                        env = dict(env)
+                        env[("L", v["decl"])] = [[]]
                     continue
                 t = v.get("type") or ""
+                if _is_list(t):
+                    lv = self.list_val(init, env)
+                    if lv is not None:
+                        env = dict(env)
+                        env[("L", v["decl"])] = lv
+                    else:
+                        self.scan(init, env)
+                    continue
                 if "QRegularExpression" in t and "Match" not in t:
                     r = self.regex_of(init, env)
                     if r:
@@ -167,14 +249,29 @@ class StrEval:
             return env
         if k == "if":
             self.scan(n.get("cond"), env)
-            a = self.exec(n.get("then"), dict(env)) if isinstance(n.get("then"), dict) else dict(env)
-            b = self.exec(n.get("else"), dict(env)) if isinstance(n.get("else"), dict) else dict(env)
+            # `if (s.isEmpty())` on a tracked local: s is the empty text on that arm
+            ea, eb = dict(env), dict(env)
+            c, neg = skip_copies(n.get("cond")), False
+            while isinstance(c, dict) and c.get("k") == "unop" and c.get("op") == "!":
+                c, neg = skip_copies(c.get("e")), not neg
+            if is_call(c, ("QString::isEmpty", "QString::isNull", "QByteArray::isEmpty")):
+                o = skip_copies(c.get("obj"))
+                if isinstance(o, dict) and o.get("k") == "ref" and o.get("decl") in env and not (isinstance(n.get("init"), dict)):
+                    (eb if neg else ea)[o["decl"]] = [[]]
+            a = self.exec(n.get("then"), ea) if isinstance(n.get("then"), dict) else ea
+            b = self.exec(n.get("else"), eb) if isinstance(n.get("else"), dict) else eb
             if a is None:
                 return b
             if b is None:
                 return a
             out = {}
             for d in set(a) | set(b):
+                if isinstance(d, tuple):
+                    # a list known on one arm only is unknown after the join
+                    if d in a and d in b:
+                        both = a[d] + [x for x in b[d] if x not in a[d]]
+                        out[d] = both[:MAX_ALT]
+                    continue
                 out[d] = dedupe((a.get(d) or []) + (b.get(d) or []))
             return out
         if k == "return":
@@ -201,6 +298,12 @@ class StrEval:
                     tgt = skip_copies(x.get("obj"))
                 if isinstance(tgt, dict) and tgt.get("k") == "ref" and tgt.get("decl") in env:
                     env[tgt["decl"]] = self.hole(tgt)
+                if isinstance(tgt, dict) and tgt.get("k") == "ref" and ("L", tgt.get("decl")) in env:
+                    del env[("L", tgt["decl"])]
+                if x.get("k") == "call" and x.get("ck") == "operator" and x.get("op") == "<<" and x.get("args"):
+                    t2 = skip_copies(x["args"][0])
+                    if isinstance(t2, dict) and t2.get("k") == "ref":
+                        env.pop(("L", t2.get("decl")), None)
             for key in ("init", "cond", "inc", "range"):
                 if isinstance(n.get(key), dict):
                     self.scan(n[key], env) if n[key].get("k") != "decl" else self.exec(n[key], env)
@@ -235,6 +338,42 @@ class StrEval:
                     r = self.regex_of(args[1], env)
                     if r and l.get("k") == "ref":
                         self.rx_locals[l["decl"]] = r
+                    return env
+            lst_tgt = None
+            if x.get("ck") == "member" and (x.get("callee") or "").split("::")[-1] in ("append", "prepend", "push_back", "push_front") and len(args) == 1:
+                lst_tgt = skip_copies(x.get("obj"))
+                how, el = ("front" if (x.get("callee") or "").split("::")[-1] in ("prepend", "push_front") else "back"), args[0]
+            elif x.get("ck") == "operator" and x.get("op") in ("<<", "+=") and len(args) == 2:
+                lst_tgt = skip_copies(args[0])
+                how, el = "back", args[1]
+            elif x.get("ck") == "operator" and x.get("op") == "=" and len(args) == 2 and _is_list(skip_copies(args[0]).get("type")):
+                l = skip_copies(args[0])
+                if l.get("k") == "ref":
+                    env = dict(env)
+                    lv = self.list_val(args[1], env)
+                    if lv is None:
+                        env.pop(("L", l["decl"]), None)
+                    else:
+                        env[("L", l["decl"])] = lv
+                    return env
+            if isinstance(lst_tgt, dict) and lst_tgt.get("k") == "ref" and ("L", lst_tgt.get("decl")) in env:
+                key = ("L", lst_tgt["decl"])
+                env = dict(env)
+                if _is_list(skip_copies(el).get("type")):
+                    add = self.list_val(el, env)
+                    if add is None:
+                        del env[key]
+                        return env
+                    env[key] = [(b + a if how == "front" else a + b) for a in env[key] for b in add][:MAX_ALT]
+                else:
+                    ev = self.val(el, env) or self.hole(el)
+                    env[key] = [([v] + a if how == "front" else a + [v]) for a in env[key] for v in ev][:MAX_ALT]
+                return env
+            if x.get("ck") == "member" and x.get("constm") is False:
+                o = skip_copies(x.get("obj"))
+                if isinstance(o, dict) and o.get("k") == "ref" and ("L", o.get("decl")) in env:
+                    env = dict(env)
+                    del env[("L", o["decl"])]
                     return env
             if x.get("ck") == "member" and (x.get("callee") or "").split("::")[-1] in ("append", "prepend", "push_back") and len(args) == 1:
                 o = skip_copies(x.get("obj"))
